@@ -537,7 +537,7 @@ def search(ctx, m, e=None):
             K1 = bspline.KnotVector(np.array(kv1), p); K2 = bspline.KnotVector(np.array(kv2), p)
             P = bspline.prolongation(K1, K2).toarray()
             if K1.numdofs == 1 and K2.numdofs > 1 and P.shape == (1, K2.numdofs):
-                # spsolve returns a 1-D array for a single right-hand side; csr_matrix() turns it into a row
+                # (repaired by 107e802; probe kept) spsolve returns a 1-D array for a single right-hand side; csr_matrix() makes it a row
                 return (KEY_D18, 'prolongation(kv1, kv2) with kv1.numdofs == 1 returns a 1 x %d row vector instead of the %d x 1 '
                         'prolongation matrix (p=%d, kv1=%s, kv2=%s)' % (K2.numdofs, K2.numdofs, p, kv1, kv2))
             cond = float(np.linalg.cond(bspline.collocation(K2, K2.greville()).toarray(), np.inf))
@@ -564,7 +564,8 @@ def oracle_pair(c, f):
         tol = 64 * EPS * (f.numlevels + 1)
         if d > tol:
             disp = max(c.disparity, f.disparity)
-            # the recorded defect: finite disparity and the fine space more than `disparity` levels deeper than a replaced function
+            # D13 (repaired in /repo by 6ce171d; listed as `fixed`, so a recurrence is a VIOLATION under this key):
+            # finite disparity and the fine space more than `disparity` levels deeper than a replaced function
             deeper = disp < np.inf and any(
                 (c.actfun[lv] - f.actfun[lv]) and f.numlevels > lv + disp + 1 for lv in range(c.numlevels))
             key = KEY_D13 if deeper else 'prolongate_to-not-function-preserving'
